@@ -183,3 +183,158 @@ example : checkType envC (fun _ _ => .raisedOther) (.seq .pep585 .list (.union .
 example : (Val.coll 4 [.lit (.int 1), .lit .none]).wf envC = true ∧ (Val.coll 4 [.lit (.int 1), .lit .none]).plain = true := by decide
 
 end PedVerif.Checker
+
+/-! ### iteration order at any depth
+
+`TopPerm` re-orders the outermost collection / mapping.  `Reorder` is its closure under nesting: any finite composition of
+re-orderings of a set / list / dict *anywhere inside* a value (an element of a collection, a key or a value of a mapping,
+an item of a tuple or NamedTuple, at any depth).  The verdict does not depend on it. -/
+namespace PedVerif.Checker
+
+inductive Reorder : Val → Val → Prop
+  | refl (v : Val) : Reorder v v
+  | trans {u v w : Val} : Reorder u v → Reorder v w → Reorder u w
+  | collPerm (c : ClsId) (xs ys : List Val) : xs.Perm ys → Reorder (.coll c xs) (.coll c ys)
+  | mapPerm (c : ClsId) (kvs kvs' : List (Val × Val)) : kvs.Perm kvs' → Reorder (.mapping c kvs) (.mapping c kvs')
+  | collAt (c : ClsId) (pre post : List Val) {x y : Val} : Reorder x y → Reorder (.coll c (pre ++ x :: post)) (.coll c (pre ++ y :: post))
+  | tupAt (c : ClsId) (pre post : List Val) {x y : Val} : Reorder x y → Reorder (.tup c (pre ++ x :: post)) (.tup c (pre ++ y :: post))
+  | ntupAt (c : ClsId) (ns : List NameId) (pre post : List Val) {x y : Val} :
+      Reorder x y → Reorder (.ntup c ns (pre ++ x :: post)) (.ntup c ns (pre ++ y :: post))
+  | keyAt (c : ClsId) (pre post : List (Val × Val)) (w : Val) {x y : Val} :
+      Reorder x y → Reorder (.mapping c (pre ++ (x, w) :: post)) (.mapping c (pre ++ (y, w) :: post))
+  | valAt (c : ClsId) (pre post : List (Val × Val)) (k : Val) {x y : Val} :
+      Reorder x y → Reorder (.mapping c (pre ++ (k, x) :: post)) (.mapping c (pre ++ (k, y) :: post))
+
+/-- what `conforms` reads from a value -/
+def Val.litAny (v : Val) (ls : List Lit) : Bool := match v with | .lit l => ls.any (litEq l) | _ => false
+def Val.clsSub (env : Env) (v : Val) (a : Ann) : Bool := match v with | .clsObj c => subSpec env c a | _ => false
+def Val.allIter (env : Env) (v : Val) (a : Ann) : Bool :=
+  match v.iter with | some xs => xs.all (fun x => conforms env a x) | Option.none => false
+def Val.allItems (env : Env) (v : Val) (k w : Ann) : Bool :=
+  match v.items with | some kvs => kvs.all (fun kv => conforms env k kv.1 && conforms env w kv.2) | Option.none => false
+def Val.zipTuple (env : Env) (v : Val) (items : List Ann) : Bool :=
+  match v.tupleItems with | some xs => conformsZip env items xs | Option.none => false
+def Val.allTuple (env : Env) (v : Val) (a : Ann) : Bool :=
+  match v.tupleItems with | some xs => xs.all (fun x => conforms env a x) | Option.none => false
+
+theorem conforms_literal (env : Env) (ls : List Lit) (v : Val) : conforms env (.literal ls) v = v.litAny ls := by
+  cases v <;> simp [conforms, Val.litAny]
+theorem conforms_typeOf (env : Env) (sp : Spell) (a : Ann) (v : Val) : conforms env (.typeOf sp a) v = v.clsSub env a := by
+  cases v <;> simp [conforms, Val.clsSub]
+theorem conforms_seq (env : Env) (sp : Spell) (o : SeqOrigin) (a : Ann) (v : Val) :
+    conforms env (.seq sp o a) v = (env.sub (v.typeOf env) (env.seqCls o) && v.allIter env a) := by
+  simp only [conforms, Val.allIter]; cases v.iter <;> rfl
+theorem conforms_map (env : Env) (sp : Spell) (o : MapOrigin) (k w : Ann) (v : Val) :
+    conforms env (.map sp o k w) v = (env.sub (v.typeOf env) (env.mapCls o) && v.allItems env k w) := by
+  simp only [conforms, Val.allItems]; cases v.items <;> rfl
+theorem conforms_tuple (env : Env) (sp : Spell) (items : List Ann) (v : Val) :
+    conforms env (.tuple sp items) v = (env.sub (v.typeOf env) env.tupleCls && v.zipTuple env items) := by
+  simp only [conforms, Val.zipTuple]; cases v.tupleItems <;> rfl
+theorem conforms_tupleVar (env : Env) (sp : Spell) (a : Ann) (v : Val) :
+    conforms env (.tupleVar sp a) v = (env.sub (v.typeOf env) env.tupleCls && v.allTuple env a) := by
+  simp only [conforms, Val.allTuple]; cases v.tupleItems <;> rfl
+
+/-- everything `conforms` reads from a value, up to the conformance of its parts -/
+structure ShallowEq (env : Env) (v v' : Val) : Prop where
+  ty : v.typeOf env = v'.typeOf env
+  isNone : v.isNone = v'.isNone
+  lit : ∀ ls, v.litAny ls = v'.litAny ls
+  clsObj : ∀ a, v.clsSub env a = v'.clsSub env a
+  iter : ∀ a, v.allIter env a = v'.allIter env a
+  items : ∀ k w, v.allItems env k w = v'.allItems env k w
+  zipT : ∀ items, v.zipTuple env items = v'.zipTuple env items
+  allT : ∀ a, v.allTuple env a = v'.allTuple env a
+
+theorem conforms_of_shallowEq (env : Env) (v v' : Val) (h : ShallowEq env v v') :
+    (∀ a, conforms env a v = conforms env a v') ∧ (∀ ms, conformsAny env ms v = conformsAny env ms v') := by
+  -- members of a Union are checked against the same value: the induction over the annotation only threads through unions
+  have hAny : ∀ ms : List Ann, (∀ m ∈ ms, conforms env m v = conforms env m v') → conformsAny env ms v = conformsAny env ms v' := by
+    intro ms hm
+    induction ms with
+    | nil => rfl
+    | cons m ms ih => simp only [conformsAny, hm m (by simp), ih (fun x hx => hm x (by simp [hx]))]
+  have hA : ∀ a : Ann, conforms env a v = conforms env a v' := by
+    intro a
+    induction a using Ann.rec (motive_2 := fun ms => ∀ m ∈ ms, conforms env m v = conforms env m v') with
+    | union sp ms ih => simp only [conforms]; exact hAny ms ih
+    | nil => rename_i m hm; cases hm
+    | cons a as iha ihas => rename_i m hm; rcases List.mem_cons.mp hm with rfl | hm; exact iha; exact ihas m hm
+    | none => simp only [conforms, h.isNone]
+    | cls c => simp only [conforms, h.ty]
+    | clsF c ns as _ => simp only [conforms, h.ty]
+    | any => simp only [conforms]
+    | literal ls => rw [conforms_literal, conforms_literal, h.lit]
+    | newType s => simp only [conforms, h.ty]
+    | typeOf sp a _ => rw [conforms_typeOf, conforms_typeOf, h.clsObj]
+    | fwd n => simp only [conforms, h.ty]
+    | strAnn n => simp only [conforms, h.ty]
+    | seq sp o a _ => rw [conforms_seq, conforms_seq, h.ty, h.iter]
+    | map sp o k w _ _ => rw [conforms_map, conforms_map, h.ty, h.items]
+    | tuple sp items _ => rw [conforms_tuple, conforms_tuple, h.ty, h.zipT]
+    | tupleVar sp a _ => rw [conforms_tupleVar, conforms_tupleVar, h.ty, h.allT]
+    | bare o => simp only [conforms]
+    | special k => simp only [conforms]
+  exact ⟨hA, fun ms => hAny ms (fun m _ => hA m)⟩
+
+theorem all_at {α} (f : α → Bool) (pre post : List α) (x y : α) (h : f x = f y) :
+    (pre ++ x :: post).all f = (pre ++ y :: post).all f := by
+  simp only [List.all_append, List.all_cons, h]
+
+theorem conformsZip_at (env : Env) {x y : Val} (h : ∀ a, conforms env a x = conforms env a y) (post : List Val) :
+    ∀ (pre : List Val) (items : List Ann), conformsZip env items (pre ++ x :: post) = conformsZip env items (pre ++ y :: post)
+  | [], [] => by simp [conformsZip]
+  | [], a :: as => by simp [conformsZip, h a]
+  | p :: pre, [] => by simp [conformsZip]
+  | p :: pre, a :: as => by simp only [List.cons_append, conformsZip, conformsZip_at env h post pre as]
+
+theorem ShallowEq.rfl' (env : Env) (v : Val) : ShallowEq env v v :=
+  ⟨rfl, rfl, fun _ => rfl, fun _ => rfl, fun _ => rfl, fun _ _ => rfl, fun _ => rfl, fun _ => rfl⟩
+
+/-- the spec does not depend on the iteration order of any set / list / dict inside the value, at any depth -/
+theorem conforms_reorder (env : Env) {v v' : Val} (h : Reorder v v') : ∀ a, conforms env a v = conforms env a v' := by
+  induction h with
+  | refl v => intro a; rfl
+  | trans _ _ ih1 ih2 => intro a; rw [ih1 a, ih2 a]
+  | collPerm c xs ys hp => intro a; exact (conforms_perm env).1 a _ _ (TopPerm.coll c xs ys hp)
+  | mapPerm c kvs kvs' hp => intro a; exact (conforms_perm env).1 a _ _ (TopPerm.mapping c kvs kvs' hp)
+  | collAt c pre post _ ih =>
+    apply (conforms_of_shallowEq env _ _ ?_).1
+    refine ⟨rfl, rfl, fun _ => rfl, fun _ => rfl, fun a => ?_, fun _ _ => rfl, fun _ => rfl, fun _ => rfl⟩
+    simp only [Val.allIter, Val.iter]; exact all_at _ pre post _ _ (ih a)
+  | tupAt c pre post _ ih =>
+    apply (conforms_of_shallowEq env _ _ ?_).1
+    refine ⟨rfl, rfl, fun _ => rfl, fun _ => rfl, fun a => ?_, fun _ _ => rfl, fun items => ?_, fun a => ?_⟩
+    · simp only [Val.allIter, Val.iter]; exact all_at _ pre post _ _ (ih a)
+    · simp only [Val.zipTuple, Val.tupleItems]; exact conformsZip_at env ih post pre items
+    · simp only [Val.allTuple, Val.tupleItems]; exact all_at _ pre post _ _ (ih a)
+  | ntupAt c ns pre post _ ih =>
+    apply (conforms_of_shallowEq env _ _ ?_).1
+    refine ⟨rfl, rfl, fun _ => rfl, fun _ => rfl, fun a => ?_, fun _ _ => rfl, fun items => ?_, fun a => ?_⟩
+    · simp only [Val.allIter, Val.iter]; exact all_at _ pre post _ _ (ih a)
+    · simp only [Val.zipTuple, Val.tupleItems]; exact conformsZip_at env ih post pre items
+    · simp only [Val.allTuple, Val.tupleItems]; exact all_at _ pre post _ _ (ih a)
+  | keyAt c pre post w _ ih =>
+    apply (conforms_of_shallowEq env _ _ ?_).1
+    refine ⟨rfl, rfl, fun _ => rfl, fun _ => rfl, fun a => ?_, fun k w' => ?_, fun _ => rfl, fun _ => rfl⟩
+    · simp only [Val.allIter, Val.iter, List.map_append, List.map_cons]; exact all_at _ _ _ _ _ (ih a)
+    · simp only [Val.allItems, Val.items]; exact all_at _ pre post _ _ (by simp only [ih k])
+  | valAt c pre post k _ ih =>
+    apply (conforms_of_shallowEq env _ _ ?_).1
+    refine ⟨rfl, rfl, fun _ => rfl, fun _ => rfl, fun a => ?_, fun k' w => ?_, fun _ => rfl, fun _ => rfl⟩
+    · simp only [Val.allIter, Val.iter, List.map_append, List.map_cons]
+    · simp only [Val.allItems, Val.items]; exact all_at _ pre post _ _ (by simp only [ih w])
+
+/-- **C02 (iteration order, any depth).** Two values that differ only in the order in which sets / lists / dicts inside
+    them (at any nesting depth) yield their elements get the same verdict. -/
+theorem iteration_order_invariant_deep (env : Env) (orc : Nat → Val → Raw) (hw : WfEnv env) (a : Ann) (v v' : Val)
+    (hre : Reorder v v') (hok : a.okC env = true ∨ a = .none)
+    (hwf : v.wf env = true) (hp : v.plain = true) (hwf' : v'.wf env = true) (hp' : v'.plain = true) :
+    checkType env orc a v = checkType env orc a v' := by
+  rw [verdict_exact env orc hw _ _ hok hwf hp, verdict_exact env orc hw _ _ hok hwf' hp', conforms_reorder env hre a]
+
+-- non-vacuity: a list of sets and a dict of lists, re-ordered two levels down
+example : Reorder (.coll 4 [.coll 6 [.lit (.int 1), .lit (.int 2)], .coll 6 []]) (.coll 4 [.coll 6 [], .coll 6 [.lit (.int 2), .lit (.int 1)]]) :=
+  .trans (.collAt 4 [] [.coll 6 []] (.collPerm 6 _ _ (List.Perm.swap _ _ _)))
+         (.collPerm 4 _ _ (List.Perm.swap _ _ _))
+
+end PedVerif.Checker
